@@ -36,10 +36,10 @@ func e2Spaces(prop, tier string) []e2Space {
 	}
 	switch prop {
 	case "C06":
-		return []e2Space{sp("2blk", false, 0), sp("2blk2", false, 0), sp("2blk-desc", false, 0), sp("2w1b", false, 0), sp("3w", false, 0), sp("del", false, 0), sp("ins", false, 0), sp("abort", false, 0),
+		return []e2Space{sp("2blk", false, 0), sp("2blk2", false, 0), sp("2blk-desc", false, 0), sp("2w1b", false, 0), sp("3w", false, 0), sp("del", false, 0), sp("ins", false, 0), sp("ins-empty", false, 0), sp("abort", false, 0),
 			sp("2w1b-3txn", false, 0), sp("big", false, pick(1500, 40000))}
 	case "C08":
-		return []e2Space{sp("2w1b", true, 0), sp("2blk", true, pick(1500, 40000)), sp("del", true, pick(1000, 30000)), sp("ins", true, pick(1000, 30000)),
+		return []e2Space{sp("2w1b", true, 0), sp("2blk", true, pick(1500, 40000)), sp("del", true, pick(1000, 30000)), sp("ins", true, pick(1000, 30000)), sp("ins-empty", true, pick(600, 0)),
 			sp("abort", true, pick(500, 10000)), sp("2w1b-3txn", true, pick(1500, 0)), sp("big", true, pick(500, 20000))}
 	case "C09":
 		return []e2Space{sp("3w", false, 0), sp("2w1b", false, 0), sp("2blk2", false, 0), sp("2blk-desc", false, 0), sp("2w1b-3txn", false, 0), sp("3w", true, pick(1500, 30000)), sp("big", false, pick(1500, 40000))}
